@@ -41,7 +41,21 @@ func mutateXML(t *rapid.T, doc []byte) []byte {
 	n := rapid.IntRange(0, 3).Draw(t, "nmut")
 	for i := 0; i < n && len(b) > 0; i++ {
 		pos := rapid.IntRange(0, len(b)-1).Draw(t, "pos")
-		switch rapid.IntRange(0, 5).Draw(t, "mut") {
+		switch rapid.IntRange(0, 6).Draw(t, "mut") {
+		case 6:
+			// a near-miss of a name: the LAST '-' of the text becomes '_' (or the last '_' a '-', or the last upper-case
+			// letter lower case) - start and end tag then differ only in what an option folds together
+			swapped := false
+			for j := len(b) - 1; j >= 0 && !swapped; j-- {
+				switch {
+				case b[j] == '-' && j+1 < len(b) && b[j+1] != '-' && b[j+1] != '>' && j > 0 && b[j-1] != '-' && b[j-1] != '!':
+					b[j], swapped = '_', true
+				case b[j] == '_':
+					b[j], swapped = '-', true
+				case b[j] >= 'A' && b[j] <= 'Z' && j > 0 && (b[j-1] == '/' || b[j-1] == ':'):
+					b[j], swapped = b[j]+32, true
+				}
+			}
 		case 0:
 			b = b[:pos]
 		case 1:
